@@ -217,11 +217,12 @@ impl EventRegister {
         self.event = 0;
     }
 
-    /// Return the enabled operation bits summary.
-    /// Returns true if any enabled condition bit is set, false otherwise.
+    /// Return the summary of this register set.
+    /// Returns true if any enabled event bit is set, false otherwise
+    /// (SCPI-99 vol. 1, 9.1: the summary is the OR of the event register ANDed with the enable register).
     ///
     pub fn get_summary(&self) -> bool {
-        (self.condition & self.enable) & 0x7fffu16 != 0u16
+        (self.event & self.enable) & 0x7fffu16 != 0u16
     }
 
     /// Get the state of relevant bit in status register. Returns true if bit is set, false otherwise.
